@@ -5,7 +5,7 @@ cd "$(dirname "$0")/.."
 SEEDS="$@"; [ -z "$SEEDS" ] && SEEDS=$(ls seeded | grep '^C')
 for s in $SEEDS; do
   DET=$(python3 -c "import json;print(' '.join(json.load(open('seeded/$s/meta.json'))['quick_checks_that_report_it']))")
-  git -C /repo apply seeded/$s/patch.diff || { echo "$s: patch does not apply"; continue; }
+  git -C /repo apply "$PWD/seeded/$s/patch.diff" || { echo "$s: patch does not apply"; continue; }
   RES=""
   for id in $DET; do
     ./check.sh $id quick >/tmp/seedall.out 2>&1; RC=$?
